@@ -508,6 +508,26 @@ def r6(repo, res):
     okm = rows == {0: {}, 1: {(102, "G>T"): 20}, 2: {(102, "G>T"): 10}, 3: "raise AldyException"}
     res.ob("C16.R6", f, f, okm, expected="sample index 0/1/2 of a three-sample file reads that sample's genotype (0/0, 1/1, 0/1); index 3 is rejected with an error",
            found=str(rows), clause="turns the genotype of the selected sample ... into evidence", key="evidence:sample-index")
+    # the constructor hands the configured sample index to the VCF loader and builds the evidence from what it returns
+    from checks._sampleinit import fold_sample_init
+
+    init_s = repo.func("sam::Sample.__init__")
+    res.analysed(init_s)
+    try:
+        rows = {}
+        for idx in (0, 2):
+            k_, v_, calls, me_, tables = fold_sample_init(repo, "vcf", None, sample_idx=idx, path="/data/in.vcf.gz")
+            lv = [c_ for c_ in calls if c_[0] == "_load_vcf"]
+            mk = [c_ for c_ in calls if c_[0] == "_make_coverage"]
+            rows[idx] = (k_, [tuple(c_[1]) + tuple(sorted(c_[2].items())) for c_ in lv], len(mk) == 1 and mk[0][1] == (tables["norm"], tables["muts"]),
+                         [c_[0] for c_ in calls if c_[0].startswith("_load") and c_[0] != "_load_vcf"])
+    except Unfoldable as e:
+        res.err("C16.R6", f"Sample.__init__ outside the folding language: {e}")
+        return
+    okc = all(r_[0] == "return" and len(r_[1]) == 1 and r_[1][0][0] == "/data/in.vcf.gz" and idx in r_[1][0][1:] and r_[2] and not r_[3] for idx, r_ in rows.items())
+    res.ob("C16.R6", init_s, init_s, okc,
+           expected="VCF input: the constructor calls the VCF loader (only) with the path and the configured sample index, and builds the coverage from the tables it returns",
+           found=str(rows), clause="When the input is a VCF, every diploid genotype call ... gives that variant support", key="evidence:constructor-route")
     # the consumer: an all-zero indel table entry must not shadow the evidence of a VCF deletion; a filled entry takes precedence;
     # a variant nobody observed has no support
     init = repo.func("coverage::Coverage.__init__")
@@ -693,6 +713,16 @@ MUTANTS = [
          old="            self._fusion_counter,\n            self._indel_sites,\n        ) = pickle.load(",
          new="            self._fusion_counter,\n            _unused,\n        ) = pickle.load(\n            fd\n        )\n        muts[0, \"ins\" + self.name] = []\n        _ = (",
          ),
+    dict(name="R6 constructor always reads the first sample", module="sam", expect="C16.R6",
+         old="path, profile.vcf_sample_idx if profile else 0", new="path, 0"),
+    dict(name="R6 padded substitution of a multi-allelic record dropped", module="sam", expect="C16.R6",
+         old="            if len(ref) - off == 1 and len(alt) - off == 1:", new="            if len(ref) == 1 and len(alt) == 1:"),
+    dict(name="R6 deletion-insertion taken for a deletion", module="sam", expect="C16.R6",
+         old="            elif len(ref) > len(alt) and len(alt) - off == 0:", new="            elif len(ref) > len(alt):"),
+    dict(name="R6 unobserved variant reads as one observation", module="coverage", expect="C16.R6",
+         old="            return len(self._coverage[mut.pos][mut.op])\n        else:\n            return 0", new="            return len(self._coverage[mut.pos][mut.op])\n        else:\n            return 1"),
+    dict(name="R6 indel table consulted for every key", module="coverage", expect="C16.R6",
+         old="        if self._indels and (mut.pos, mut.op) in self._indels:\n            return self._indels[mut.pos, mut.op][1]", new="        if self._indels:\n            return self._indels.get((mut.pos, mut.op), (0, 0))[1]"),
     dict(name="R6 op spelled from the record's REF (seeded C16_1 shape)", module="sam", expect="C16.R6",
          old='                return off + pos, f"{self.gene[off + pos]}>{alt[off]}"', new='                return off + pos, f"{ref[off]}>{alt[off]}"'),
     dict(name="R6 zero indel entries shadow VCF deletions (seeded C16_4 shape)", module="coverage", expect=["C16.R6"],
